@@ -340,7 +340,12 @@ def check_turn_case(case, sess: Session):
             decisions = []
             real_sy = core._should_yield
 
+            vc_turn = VClock(pc_step=t["pc_step"], pc_script=([0.0] * t["pc_jump"] + [10.0]) if t.get("pc_jump") else None)
+            elapsed_at = []
+
             def sy(slice_ctx, consumed):
+                # the virtual clock's last reading is the one the consumption was computed from
+                elapsed_at.append(None if vc_turn.first is None else int(round((vc_turn.pc - vc_turn.first) * 1000.0)))
                 r = real_sy(slice_ctx, consumed)
                 decisions.append((copy.deepcopy(slice_ctx["budgets"]), dict(consumed), r))
                 return r
@@ -384,7 +389,7 @@ def check_turn_case(case, sess: Session):
                 return r_
 
             with patched(core, "_should_yield", sy), patched(orch, "t1_propagate", t1w), patched(orch, "t2_semantic", t2w):
-                r = env.run(t["agent"], t["text"], ti + 1, plan=planner, vclock=VClock(pc_step=t["pc_step"], pc_script=([0.0] * t["pc_jump"] + [10.0]) if t.get("pc_jump") else None))
+                r = env.run(t["agent"], t["text"], ti + 1, plan=planner, vclock=vc_turn)
             tcase = {"cfg": case["cfg"], "turn": ti, "turns": case["turns"][:ti + 1], "world": case["world"]}
             sess.evaluations += 1
             sess.count("scheduled_turns")
@@ -467,6 +472,14 @@ def check_turn_case(case, sess: Session):
                 if decisions[1][1].get("t2_k") != new["t2.jsonl"][0].get("k_used"):
                     sess.violation("yield:consumed-at-T2-boundary-differs-from-the-stage-record", tcase, {"consumed": decisions[1][1], "k_used": new["t2.jsonl"][0].get("k_used"),
                                                                                                         "cache_hit": new["t2.jsonl"][0].get("cache_hit")})
+            # the elapsed time a boundary reports is the time that passed on the (virtual) clock since the turn began - under
+            # CI normalisation too: the budgets bind on it
+            for i, (bud, cons, res) in enumerate(decisions):
+                if i < len(elapsed_at) and elapsed_at[i] is not None:
+                    sess.count("boundary_elapsed_ms_checked")
+                    if cons.get("ms") != elapsed_at[i]:
+                        sess.violation("yield:consumed-ms-is-not-the-elapsed-time-of-the-turn", tcase, {"boundary": i, "consumed": cons, "elapsed_on_the_clock_ms": elapsed_at[i]})
+                        break
             for i, (bud, cons, res) in enumerate(decisions):
                 exp = table_oracle(bud, cons)
                 if exp != res:
